@@ -190,8 +190,12 @@ func (c *conformer) offer(root string, st core.Store, r core.Req, got core.Res) 
 	c.cases = append(c.cases, confCase{st, r, got, root})
 }
 
+// sizeRe: the byte count in "event too large (N bytes" includes the event's timestamps, whose length varies
+// (RFC3339Nano drops trailing zeros), so it is not comparable between two runs.
+var sizeRe = regexp.MustCompile(`event too large \(\d+ bytes`)
+
 func blankTS(b []byte) string {
-	return tsAny.ReplaceAllString(string(b), "<TS>")
+	return sizeRe.ReplaceAllString(tsAny.ReplaceAllString(string(b), "<TS>"), "event too large (<N> bytes")
 }
 
 // run validates all collected cases; returns how many were validated. Any mismatch is a harness error.
